@@ -563,11 +563,14 @@ package reftable
 //@   nopanic
 //@   modifies pq.heap, pq.heap[:cap(pq.heap)]
 //@   ensures len(pq.heap) == old(len(pq.heap)) + 1 && recsOK(pq)
-//@   ensures[order] ordered(pq)
-//@   ensures heapOK(pq)
+//@   ensures fresh(pq.heap) || (ref(pq.heap) == old(ref(pq.heap)) && off(pq.heap) == old(off(pq.heap)) && cap(pq.heap) == old(cap(pq.heap)))
+//@   ensures[order:ordered] ordered(pq)
+//@   ensures[order:heapOK] heapOK(pq)
+//@   ensures[members:all] forall k int :: 0 <= k && k < len(pq.heap) ==> pq.heap[k] == e || (exists j int :: 0 <= j && j < old(len(pq.heap)) && pq.heap[k] == old(pq.heap[j]))
 //@   loop 1 invariant 0 <= i && i < len(pq.heap) && len(pq.heap) == old(len(pq.heap)) + 1 && pq != nil && recsOK(pq)
-//@   loop 1 invariant forall k int :: 1 <= k && k < len(pq.heap) && k != i ==> !entryLess(pq, k, (k-1)/2)
-//@   loop 1 invariant forall k int :: 1 <= k && k < len(pq.heap) && (k-1)/2 == i && i >= 1 ==> !entryLess(pq, k, (i-1)/2)
+//@   loop 1 invariant[members:inv] forall k int :: 0 <= k && k < len(pq.heap) ==> pq.heap[k] == e || (exists j int :: 0 <= j && j < old(len(pq.heap)) && pq.heap[k] == old(pq.heap[j]))
+//@   loop 1 invariant[order:hole] forall k int :: 1 <= k && k < len(pq.heap) && k != i ==> !entryLess(pq, k, (k-1)/2)
+//@   loop 1 invariant[order:grand] forall k int :: 1 <= k && k < len(pq.heap) && (k-1)/2 == i && i >= 1 ==> !entryLess(pq, k, (i-1)/2)
 //@   loop 1 decreases i
 
 //@ func (*mergedIterPQueue).remove
@@ -576,10 +579,125 @@ package reftable
 //@   nopanic
 //@   modifies pq.heap, pq.heap[:]
 //@   ensures len(pq.heap) == old(len(pq.heap)) - 1 && recsOK(pq)
-//@   ensures[order] ordered(pq)
-//@   ensures heapOK(pq)
+//@   ensures[order:ordered] ordered(pq)
+//@   ensures[order:heapOK] heapOK(pq)
 //@   ensures result == old(pq.heap[0])
+//@   ensures[members:all] forall k int :: 0 <= k && k < len(pq.heap) ==> (exists j int :: 0 <= j && j < old(len(pq.heap)) && pq.heap[k] == old(pq.heap[j]))
 //@   loop 1 invariant 0 <= i && len(pq.heap) == old(len(pq.heap)) - 1 && pq != nil && recsOK(pq)
-//@   loop 1 invariant forall k int :: 1 <= k && k < len(pq.heap) && (k-1)/2 != i ==> !entryLess(pq, k, (k-1)/2)
-//@   loop 1 invariant forall k int :: 1 <= k && k < len(pq.heap) && (k-1)/2 == i && i >= 1 ==> !entryLess(pq, k, (i-1)/2)
+//@   loop 1 invariant[members:inv] forall k int :: 0 <= k && k < len(pq.heap) ==> (exists j int :: 0 <= j && j < old(len(pq.heap)) && pq.heap[k] == old(pq.heap[j]))
+//@   loop 1 invariant[order:children] forall k int :: 1 <= k && k < len(pq.heap) && (k-1)/2 != i ==> !entryLess(pq, k, (k-1)/2)
+//@   loop 1 invariant[order:grand] forall k int :: 1 <= k && k < len(pq.heap) && (k-1)/2 == i && i >= 1 ==> !entryLess(pq, k, (i-1)/2)
 //@   loop 1 decreases len(pq.heap) - i
+
+//@ func lemmaRootMin
+//@   props C03
+//@   requires heapOK(pq) && 0 <= i && i < len(pq.heap)
+//@   pure
+//@   decreases i
+//@   ensures !entryLess(pq, i, 0)
+
+// A sub-iterator's Next may write its own state, the record it is given and fresh memory. Assumption (ownership, not
+// checked): it does not write the priority queue of the merged iterator that owns it.
+//@ iface iterator.Next
+//@   params rec
+//@   modifies buflen, bufdata, rec, anyof(*tableIter), anyof(*indexedTableRefIter), anyof(*filteringRefIterator), anyof(*blockIter)
+
+//@ spec wfMI(m *mergedIter) bool = m != nil && heapOK(m.pq) && (m.typ == 'r' || m.typ == 'g' || m.typ == 'o' || m.typ == 'i') && (forall k int :: 0 <= k && k < len(m.pq.heap) ==> 0 <= m.pq.heap[k].index && m.pq.heap[k].index < len(m.stack))
+
+//@ func (*mergedIter).advanceSubIter
+//@   props C03
+//@   requires wfMI(m) && 0 <= index && index < len(m.stack)
+//@   modifies buflen, bufdata, m.pq.heap, m.pq.heap[:cap(m.pq.heap)], m.stack[index], anyof(*tableIter), anyof(*indexedTableRefIter), anyof(*filteringRefIterator), anyof(*blockIter)
+//@   ensures len(m.stack) == old(len(m.stack)) && m != nil && (m.typ == 'r' || m.typ == 'g' || m.typ == 'o' || m.typ == 'i')
+//@   ensures[d1] recsOK(m.pq)
+//@   ensures[d2] ordered(m.pq)
+//@   ensures[d3] forall k int :: 0 <= k && k < len(m.pq.heap) ==> 0 <= m.pq.heap[k].index && m.pq.heap[k].index < len(m.stack)
+//@   ensures wfMI(m)
+//@   ensures[members] forall k int :: 0 <= k && k < len(m.pq.heap) ==> fresh(iref(m.pq.heap[k].rec)) || (exists j int :: 0 <= j && j < old(len(m.pq.heap)) && m.pq.heap[k] == old(m.pq.heap[j]))
+
+// From the statement: the record returned is the queue's least entry (least key, and among equal keys the newest
+// table); afterwards every entry left in the queue has a strictly greater key, so keys come out strictly increasing,
+// each once, and older duplicates are consumed.
+//@ func (*mergedIter).nextEntry
+//@   props C03
+//@   use lemmaRootMin
+//@   requires wfMI(m) && recAny(rec)
+//@   requires forall k int :: 0 <= k && k < len(m.pq.heap) ==> iref(m.pq.heap[k].rec) != iref(rec)
+//@   ensures[wf] wfMI(m)
+//@   ensures[is-root] result0 ==> keyOf(rec) == old(keyOf(m.pq.heap[0].rec)) && old(len(m.pq.heap)) > 0
+//@   ensures[root-is-least] result0 ==> (forall k int :: 0 <= k && k < old(len(m.pq.heap)) ==> !old(entryLess(m.pq, k, 0)))
+//@   ensures[rest-greater] result0 ==> (forall k int :: 0 <= k && k < len(m.pq.heap) ==> keyOf(m.pq.heap[k].rec) > keyOf(rec))
+//@   ensures[exhausted] !result0 && result1 == nil ==> old(len(m.pq.heap)) == 0
+//@   ensures[sep] forall k int :: 0 <= k && k < len(m.pq.heap) ==> iref(m.pq.heap[k].rec) != iref(rec)
+//@   ensures[frame] m.suppressDeletions == old(m.suppressDeletions) && recAny(rec)
+//@   loop 1 invariant wfMI(m) && len(m.stack) == old(len(m.stack)) && recAny(rec) && recAny(entry.rec) && keyOf(entry.rec) == old(keyOf(m.pq.heap[0].rec)) && allocated(iref(entry.rec)) && allocated(iref(rec)) && iref(entry.rec) != iref(rec) && m.suppressDeletions == old(m.suppressDeletions)
+//@   loop 1 invariant forall k int :: 0 <= k && k < len(m.pq.heap) ==> iref(m.pq.heap[k].rec) != iref(rec)
+
+//@ func (*RefRecord).IsDeletion
+//@   props C03 C07
+//@   pure
+//@   ensures result == (r.Value == nil && r.TargetValue == nil && r.Target == "")
+
+//@ func (*LogRecord).IsDeletion
+//@   props C03 C07
+//@   pure
+//@   ensures result == (l.New == nil && l.Old == nil && l.Name == "" && l.Email == "" && l.Time == 0 && l.TZOffset == 0 && l.Message == "")
+
+//@ spec isDel(rec record) bool = istype(rec, *RefRecord) ? (asptr(rec, *RefRecord).Value == nil && asptr(rec, *RefRecord).TargetValue == nil && asptr(rec, *RefRecord).Target == "") : (istype(rec, *LogRecord) ? (asptr(rec, *LogRecord).New == nil && asptr(rec, *LogRecord).Old == nil && asptr(rec, *LogRecord).Name == "" && asptr(rec, *LogRecord).Email == "" && asptr(rec, *LogRecord).Time == 0 && asptr(rec, *LogRecord).TZOffset == 0 && asptr(rec, *LogRecord).Message == "") : false)
+
+// From the statement: the stack's view (suppressDeletions) never yields a deletion record; the raw view yields what
+// nextEntry yields. Keys keep coming out strictly increasing.
+//@ func (*mergedIter).Next
+//@   props C03
+//@   requires wfMI(m) && recAny(rec)
+//@   requires forall k int :: 0 <= k && k < len(m.pq.heap) ==> iref(m.pq.heap[k].rec) != iref(rec)
+//@   ensures[wf] wfMI(m)
+//@   ensures[hides-deletions] result0 && m.suppressDeletions ==> !isDel(rec)
+//@   ensures[rest-greater] result0 ==> (forall k int :: 0 <= k && k < len(m.pq.heap) ==> keyOf(m.pq.heap[k].rec) > keyOf(rec))
+//@   ensures[sep] forall k int :: 0 <= k && k < len(m.pq.heap) ==> iref(m.pq.heap[k].rec) != iref(rec)
+//@   loop 1 invariant wfMI(m) && recAny(rec) && allocated(iref(rec)) && m.suppressDeletions == old(m.suppressDeletions)
+//@   loop 1 invariant forall k int :: 0 <= k && k < len(m.pq.heap) ==> iref(m.pq.heap[k].rec) != iref(rec)
+
+//@ func (*mergedIter).init
+//@   props C03
+//@   requires it != nil && len(it.pq.heap) == 0 && (it.typ == 'r' || it.typ == 'g' || it.typ == 'o' || it.typ == 'i')
+//@   modifies buflen, bufdata, it.pq.heap, it.pq.heap[:cap(it.pq.heap)], it.stack[:], anyof(*tableIter), anyof(*indexedTableRefIter), anyof(*filteringRefIterator), anyof(*blockIter)
+//@   ensures result == nil ==> wfMI(it)
+//@   ensures it.typ == old(it.typ) && it.suppressDeletions == old(it.suppressDeletions) && len(it.stack) == old(len(it.stack))
+//@   loop 1 invariant[a] it != nil && it.typ == old(it.typ) && it.suppressDeletions == old(it.suppressDeletions) && it.stack == old(it.stack) && -1 <= rangeindex && rangeindex < len(it.stack)
+//@   loop 1 invariant[b] fresh(it.pq.heap) || (ref(it.pq.heap) == old(ref(it.pq.heap)) && off(it.pq.heap) == old(off(it.pq.heap)) && cap(it.pq.heap) == old(cap(it.pq.heap)))
+//@   loop 1 invariant[c] heapOK(it.pq)
+//@   loop 1 invariant[d] forall k int :: 0 <= k && k < len(it.pq.heap) ==> 0 <= it.pq.heap[k].index && it.pq.heap[k].index < len(it.stack)
+
+//@ iface Table.seekRecord
+//@   params rec
+//@   modifies buflen, bufdata, anyof(*tableIter), anyof(*indexedTableRefIter), anyof(*filteringRefIterator), anyof(*blockIter)
+//@   ensures result1 == nil ==> result0 != nil
+
+//@ iface Table.Name
+//@   pure
+
+// From the statement: the stack's view hides deletions, the raw view exposes them - the merged iterator carries the
+// view's flag - and it merges one sub-iterator per table of the stack, for the record type asked for.
+//@ func (*Merged).seekRecord
+//@   props C03
+//@   requires m != nil && recAny(rec)
+//@   modifies buflen, bufdata, anyof(*tableIter), anyof(*indexedTableRefIter), anyof(*filteringRefIterator), anyof(*blockIter)
+//@   ensures[is-merged-iter] result1 == nil ==> istype(result0, *mergedIter) && fresh(iref(result0)) && iref(result0) != 0
+//@   ensures[view-flag] result1 == nil ==> asptr(result0, *mergedIter).suppressDeletions == m.suppressDeletions
+//@   ensures[typ] result1 == nil ==> asptr(result0, *mergedIter).typ == typOf(rec)
+//@   ensures[one-per-table] result1 == nil ==> len(asptr(result0, *mergedIter).stack) == len(m.stack)
+//@   ensures[wf] result1 == nil ==> wfMI(asptr(result0, *mergedIter))
+//@   loop 1 invariant -1 <= rangeindex && rangeindex < len(m.stack) && len(m.stack) == old(len(m.stack)) && len(its) == rangeindex + 1 && len(names) == rangeindex + 1 && (its == nil || fresh(its)) && (names == nil || fresh(names))
+
+//@ func (*Merged).SeekRef
+//@   props C03
+//@   requires m != nil
+//@   modifies buflen, bufdata, anyof(*tableIter), anyof(*indexedTableRefIter), anyof(*filteringRefIterator), anyof(*blockIter)
+//@   ensures result1 == nil ==> result0 != nil && istype(result0.impl, *mergedIter) && asptr(result0.impl, *mergedIter).suppressDeletions == m.suppressDeletions && asptr(result0.impl, *mergedIter).typ == 'r' && wfMI(asptr(result0.impl, *mergedIter))
+
+//@ func (*Merged).SeekLog
+//@   props C03
+//@   requires m != nil
+//@   modifies buflen, bufdata, anyof(*tableIter), anyof(*indexedTableRefIter), anyof(*filteringRefIterator), anyof(*blockIter)
+//@   ensures result1 == nil ==> result0 != nil && istype(result0.impl, *mergedIter) && asptr(result0.impl, *mergedIter).suppressDeletions == m.suppressDeletions && asptr(result0.impl, *mergedIter).typ == 'g' && wfMI(asptr(result0.impl, *mergedIter))
